@@ -549,6 +549,14 @@ Theorem c02_reader_expressions_regenerated :
 Proof. exact (conj stream_vendor_regenerated list_padding_regenerated). Qed.
 Print Assumptions c02_reader_expressions_regenerated.
 
+(* Minidump::read as the model's read_directory / served_dir follow it: the statements of the function, in order, as found in
+   the source on this run (warn! calls aside, nothing else touches the map or returns), and the version test's mask *)
+Theorem c02_read_steps_regenerated :
+  RD_READ_STEPS = DOC_READ_STEPS /\
+  (forall version, 0 <= version -> Z.land version RD_VERSION_MASK = version mod 65536).
+Proof. exact read_steps_regenerated. Qed.
+Print Assumptions c02_read_steps_regenerated.
+
 Example c02_nonvacuous_stream_types :
   let d := [(10, (1, 50)); (1197932550, (2, 60)); (4, (3, 70)); (10, (4, 80)); (1299843851, (5, 90)); (32773, (0, 0))] in
   unimplemented_streams d = [(10, (3, (4, 80))); (32773, (5, (0, 0))); (1197932550, (1, (2, 60)))] /\
